@@ -829,16 +829,59 @@ Definition enc_res {A} (f : A -> val) (r : res A) : val :=
 Definition observe (cfg : config) : val :=
   VL (flat_map (fun s => map (fun ko => enc_res enc_value (sget get_fuel cfg (snd s) (fst ko))) (snd s)) cfg).
 
+(* ---- histories: the public API used step by step, with read-backs in between ------------------------------- *)
+Inductive hop :=
+| HObserve                               (* config[section][key] for every option *)
+| HRead (name : str)                     (* config.read(name) *)
+| HMain (argv : list str)                (* parse_args; read(data["config"]); updateFromDict(data)  on the current configuration *)
+| HAssign (sec key : str) (v : value).   (* config[sec][key] = v      (ConfigSection.__setitem__: self.data[key].value = value) *)
+
+Definition assign (cfg : config) (sec key : str) (v : value) : res config :=
+  match opt_at cfg sec key with
+  | Some o => Ok (set_at cfg sec key (set_value o v))
+  | None => Crash KeyError
+  end.
+
+(* the observations made, in order; the history stops at the first step that raises *)
+Fixpoint run_history (cfg : config) (f : fs) (ops : list hop) : list val :=
+  let continue := fun (r : res config) (rest : list hop) =>
+    match r with Ok cfg' => run_history cfg' f rest | e => [enc_res (fun _ => VI 0) e] end in
+  match ops with
+  | [] => []
+  | HObserve :: rest => observe cfg :: run_history cfg f rest
+  | HRead name :: rest => continue (read true cfg [fs_lookup f name]) rest
+  | HMain argv :: rest => continue (main true cfg f argv) rest
+  | HAssign sec key v :: rest => continue (assign cfg sec key v) rest
+  end.
+
+Definition dec_hop (v : val) : option hop :=
+  match v with
+  | VL [VI 0] => Some HObserve
+  | VL [VI 1; n] => option_map HRead (getS n)
+  | VL [VI 2; argv] => option_map HMain (dec_list getS argv)
+  | VL [VI 3; s; k; x] =>
+      match getS s, getS k, dec_value x with Some s, Some k, Some x => Some (HAssign s k x) | _, _, _ => None end
+  | _ => None
+  end.
+
 (* case:  [0; fs; argv]          the shipped option table [cfg0]
           [1; table; fs; argv]   a synthetic table
-          [2; s]                 shlex.split(s)      [3; s] int(s)      [4; s] float(s)        (unit level) *)
+          [2; s]                 shlex.split(s)      [3; s] int(s)      [4; s] float(s)        (unit level)
+          [5; fs; ops]           a history over the shipped table      [6; table; fs; ops]  over a synthetic table *)
 Definition run_case (cfg0 : config) (v : val) : val :=
   let go := fun cfg f argv =>
     match dec_list (dec_pair getS dec_file) f, dec_list getS argv with
     | Some f, Some argv => enc_res observe (main true cfg f argv)
     | _, _ => v_bad_input
     end in
+  let hist := fun cfg f ops =>
+    match dec_list (dec_pair getS dec_file) f, dec_list dec_hop ops with
+    | Some f, Some ops => VL [VI 0; VL (run_history cfg f ops)]
+    | _, _ => v_bad_input
+    end in
   match v with
+  | VL [VI 5; f; ops] => hist cfg0 f ops
+  | VL [VI 6; tbl; f; ops] => match dec_config tbl with Some cfg => hist cfg f ops | None => v_bad_input end
   | VL [VI 0; f; argv] => go cfg0 f argv
   | VL [VI 1; tbl; f; argv] => match dec_config tbl with Some cfg => go cfg f argv | None => v_bad_input end
   | VL [VI 2; s] => match getS s with Some s => enc_res (fun l => VL (map ofS l)) (shlex_split s) | None => v_bad_input end
